@@ -611,7 +611,7 @@ func (c *Context) onKilled(message *vivid.OnKilled, behavior vivid.Behavior) {
 		if !message.Ref.Equals(c.ref) {
 			// 僵尸仅由针对自身的 Kill（或父级终止时的 Kill）释放；其子节点、被监听者的死亡通知不应将其释放，
 			// 否则每收到一条 OnKilled 都会再次向父级与监听者通告自身死亡（相互监听的僵尸之间会无休止地互相通告）
-			c.removeChild(message.Ref.GetPath())
+			c.removeChild(message.Ref)
 			return
 		}
 		handler.shouldContinue = true
@@ -690,11 +690,15 @@ func (c *Context) Children() vivid.ActorRefs {
 	return children
 }
 
-// removeChild 移除子 Actor 引用并返回剩余的子 Actor 数量。
-func (c *Context) removeChild(path vivid.ActorPath) int {
+// removeChild 移除已终止的子 Actor 引用并返回剩余的子 Actor 数量。
+// 仅当登记的正是已终止的那个实例时才移除：路径在子 Actor 自身清理时即已释放，同名的新子 Actor 可能在旧实例的终止通知到达之前
+// 就已创建并登记（被监听的非子 Actor 的终止通知同样经过此处），按路径删除会把仍存活的子 Actor 从树中摘除。
+func (c *Context) removeChild(ref vivid.ActorRef) int {
 	c.childrenLock.Lock()
 	defer c.childrenLock.Unlock()
-	delete(c.children, path)
+	if current, ok := c.children[ref.GetPath()]; ok && current == ref {
+		delete(c.children, ref.GetPath())
+	}
 	return len(c.children)
 }
 
